@@ -5,24 +5,25 @@
 (* of the specification accepts as conforming: it is recorded as a violation.                       *)
 EXTENDS Parse, Sequences, FiniteSets, Json, IOUtils, TLC
 Events == ndJsonDeserialize(IOEnv.TRACE)
-VARIABLES l, bad, runs
-vars == <<l, bad, runs>>
-Init == l = 1 /\ bad = <<>> /\ runs = {}
+VARIABLES l, bad, runs, notes
+vars == <<l, bad, runs, notes>>
+Init == l = 1 /\ bad = <<>> /\ runs = {} /\ notes = <<>>
 IsEvent(e) == l <= Len(Events) /\ Events[l].e = e /\ l' = l + 1
 TParse == LET r == Events[l] IN
   /\ IsEvent("ParseClass") /\ r.n > 0
   /\ bad' = IF ParseClassOK(r) THEN bad ELSE Append(bad, [cls |-> "parse_not_total", key |-> r.fn \o ":" \o r.cls, detail |-> r.witness_hex])
+  /\ notes' = IF ParseClassAsReference(r) \/ Len(notes) >= 50 THEN notes ELSE Append(notes, [key |-> r.fn \o ":" \o r.cls, detail |-> r.witness_hex])
   /\ UNCHANGED runs
 TRun == LET r == Events[l] IN
   /\ IsEvent("HarnessRun") /\ r.events >= 0
-  /\ runs' = runs \cup {r.harness} /\ UNCHANGED bad
+  /\ runs' = runs \cup {r.harness} /\ UNCHANGED <<bad, notes>>
 TFault == LET r == Events[l] IN
   /\ IsEvent("Fault")
   /\ bad' = Append(bad, [cls |-> "fault", key |-> r.harness \o ":" \o r.kind, detail |-> r.detail])
-  /\ UNCHANGED runs
+  /\ UNCHANGED <<runs, notes>>
 TFinish == /\ l = Len(Events) + 1 /\ l' = l + 1
-           /\ JsonSerialize(IOEnv.OUT, [bad |-> bad, runs |-> Cardinality(runs)])
-           /\ UNCHANGED <<bad, runs>>
+           /\ JsonSerialize(IOEnv.OUT, [bad |-> bad, runs |-> Cardinality(runs), notes |-> notes])
+           /\ UNCHANGED <<bad, runs, notes>>
 Next == TParse \/ TRun \/ TFault \/ TFinish
 Spec == Init /\ [][Next]_vars
 Accepted == TLCGet("stats").diameter - 2 = Len(Events)
